@@ -238,7 +238,7 @@ def _check_file(case):
         if st == "exc":
             viols.append(Viol("querywav-raised:" + type(q).__name__, f"QueryWav({what}) ({tag}): {q!r}"))
             continue
-        if (q.sampleWidth, q.frameRate, q.nframes) != (width, rate, n) or not math.isclose(q.duration, n / rate, rel_tol=1e-12):
+        if (q.sampleWidth, q.frameRate, q.nframes) != (width, rate, n) or q.duration != n / rate:  # exactly n / rate, not a number one ulp away
             viols.append(Viol("querywav-params", f"{tag}: QueryWav params {q.params}"))
         T = times(rate, n)
         for a, t0 in enumerate(T):
@@ -332,7 +332,7 @@ def _check_file_lengths(case):
         st, fr, _ = call(q.getFrames)
         if st == "exc" or W.unpack(fr, width) != s:
             viols.append(Viol("querywav-whole-file", f"QueryWav.getFrames() width={width} rate={rate} n={n} does not return the whole recording"))
-        if (q.nframes, q.frameRate, q.sampleWidth) != (n, rate, width) or not math.isclose(q.duration, n / rate, rel_tol=1e-12):
+        if (q.nframes, q.frameRate, q.sampleWidth) != (n, rate, width) or q.duration != n / rate:  # exactly n / rate, not a number one ulp away
             viols.append(Viol("querywav-params", f"width={width} rate={rate} n={n}: {q.params}"))
         try:
             q.audiofile.close()
